@@ -347,6 +347,9 @@ func lqRunPure(id string, in lqPureIn) Case {
 		if total.Sign() == 0 {
 			tags["total=0"] = true
 		}
+		if lqMulOverflows(proj, sub) {
+			tags["amount*sub>=2^256"] = true
+		}
 		if panicked != "" {
 			msg = panicked
 			obs.Err = panicked
@@ -528,6 +531,17 @@ func lqRunPure(id string, in lqPureIn) Case {
 	}
 }
 
+// lqMulOverflows: some period amount times the subtrahend does not fit the 256
+// bits of math.Int (only reachable with amounts far above the aISLM supply).
+func lqMulOverflows(ps []lqP, sub *big.Int) bool {
+	for _, p := range ps {
+		if new(big.Int).Mul(p.A, sub).BitLen() > 256 {
+			return true
+		}
+	}
+	return false
+}
+
 // lqOracleSub: the split is exact (property C11, first sentence), on the full
 // Coins of every period, by arithmetic on the returned lists only.
 func lqOracleSub(ps0 sdkvesting.Periods, denom string, sub, total *big.Int, dec, diff sdkvesting.Periods) string {
@@ -578,7 +592,10 @@ func lqOracleSub(ps0 sdkvesting.Periods, denom string, sub, total *big.Int, dec,
 }
 
 // ---------------------------------------------------------------- pure generator
-func lqGenAmounts(r *Rng, n int) []*big.Int {
+// big: also amounts up to 2^200, for which amount*sub exceeds the 256 bits of
+// math.Int (SubtractAmountFromPeriods then panics with "integer overflow"; see
+// lqOverflowClass); off unless -arg big=1.
+func lqGenAmounts(r *Rng, n int, big200 bool) []*big.Int {
 	out := make([]*big.Int, n)
 	style := r.Intn(8)
 	var eq *big.Int
@@ -594,8 +611,8 @@ func lqGenAmounts(r *Rng, n int) []*big.Int {
 			}
 		case 2: // near 2^120
 			out[i] = new(big.Int).Add(new(big.Int).Lsh(big.NewInt(1), 119), r.Big(119))
-		case 3: // up to 2^200 (sometimes)
-			if r.Chance(50) {
+		case 3: // up to 2^200 (only with big=1), else up to 2^120
+			if big200 && r.Chance(50) {
 				out[i] = r.Big(200)
 			} else {
 				out[i] = r.Big(120)
@@ -612,7 +629,11 @@ func lqGenAmounts(r *Rng, n int) []*big.Int {
 		}
 	}
 	if style == 5 && n > 0 {
-		out[r.Intn(n)] = new(big.Int).Add(new(big.Int).Lsh(big.NewInt(1), uint(100+r.Intn(60))), r.Big(64))
+		top := 24
+		if big200 {
+			top = 90
+		}
+		out[r.Intn(n)] = new(big.Int).Add(new(big.Int).Lsh(big.NewInt(1), uint(100+r.Intn(top))), r.Big(64))
 	}
 	return out
 }
@@ -660,8 +681,8 @@ func lqGenN(r *Rng) int {
 	return 3 + r.Intn(10)
 }
 
-func lqGenPurePeriods(r *Rng, n int, multi bool) []lqPurePer {
-	am, ln := lqGenAmounts(r, n), lqGenLengths(r, n)
+func lqGenPurePeriods(r *Rng, n int, multi, big200 bool) []lqPurePer {
+	am, ln := lqGenAmounts(r, n, big200), lqGenLengths(r, n)
 	others := []string{"uatom", "zzz", "aAAA"} // sorts after / after / before aISLM
 	nOther := 1 + r.Intn(2)
 	r0 := r.Intn(3)
@@ -682,14 +703,14 @@ func lqGenPurePeriods(r *Rng, n int, multi bool) []lqPurePer {
 	return out
 }
 
-func lqGenPure(r *Rng) lqPureIn {
+func lqGenPure(r *Rng, big200 bool) lqPureIn {
 	in := lqPureIn{Kind: "pure"}
 	k := r.Intn(100)
 	n := lqGenN(r)
 	switch {
 	case k < 50:
 		in.Fn = "sub"
-		in.Ps = lqGenPurePeriods(r, n, r.Chance(22))
+		in.Ps = lqGenPurePeriods(r, n, r.Chance(22), big200)
 		total := big.NewInt(0)
 		for _, p := range in.Ps {
 			total.Add(total, lqBig(p.A))
@@ -716,7 +737,7 @@ func lqGenPure(r *Rng) lqPureIn {
 		}
 		in.Sub = sub.String()
 	case k < 70, k >= 80:
-		in.Ps = lqGenPurePeriods(r, n, false)
+		in.Ps = lqGenPurePeriods(r, n, false, false)
 		if r.Chance(70) { // keep times in a realistic window most of the time
 			for i := range in.Ps {
 				in.Ps[i].L %= 5000
@@ -753,7 +774,7 @@ func lqGenPure(r *Rng) lqPureIn {
 		}
 	default:
 		in.Fn = "tail"
-		in.Ps = lqGenPurePeriods(r, n, false)
+		in.Ps = lqGenPurePeriods(r, n, false, false)
 		m := lqGenN(r)
 		switch r.Intn(5) {
 		case 0:
@@ -763,7 +784,7 @@ func lqGenPure(r *Rng) lqPureIn {
 				m = r.Intn(n + 1)
 			}
 		}
-		in.Repl = lqGenPurePeriods(r, m, false)
+		in.Repl = lqGenPurePeriods(r, m, false, false)
 	}
 	return in
 }
@@ -2030,7 +2051,7 @@ func liquidDriver(cfg Config, out *Out) error {
 	}
 	r := NewRng(cfg.Seed)
 	for i := 0; i < nPure; i++ {
-		out.Emit(lqRunPure(fmt.Sprintf("s%d-p%d", cfg.Seed, i), lqGenPure(r.Fork())))
+		out.Emit(lqRunPure(fmt.Sprintf("s%d-p%d", cfg.Seed, i), lqGenPure(r.Fork(), cfg.Args["big"] == "1")))
 	}
 	for i := 0; i < nHist; i++ {
 		g := newLqGen(r.Fork())
